@@ -2734,14 +2734,17 @@ def orbital_equinox2equinox(epoch0, epoch, i0, arg0, lon0):
     etar = eta.rad()
     lon0r = lon0.rad()
     pir = pie.rad()
-    # If i0 is very small, the procedure is different
-    if i0 < 1.0:
+    # If i0 is zero, the procedure is different
+    if i0 == 0.0:
         i1 = eta
         lon1 = pie + p + 180.0
     else:
         a = sin(i0r) * sin(lon0r - pir)
         b = -sin(etar) * cos(i0r) + cos(etar) * sin(i0r) * cos(lon0r - pir)
-        i1 = asin(sqrt(a*a + b*b))
+        # sin(i1) = sqrt(a^2 + b^2) alone cannot tell a retrograde orbit from
+        # a direct one: use cos(i1) too
+        c = cos(i0r) * cos(etar) + sin(i0r) * sin(etar) * cos(lon0r - pir)
+        i1 = atan2(sqrt(a*a + b*b), c)
         i1 = Angle(i1, radians=True)
         omegapsi = atan2(a, b)
         omegapsi = Angle(omegapsi, radians=True)
